@@ -132,6 +132,7 @@ MUTANTS = [
     ('spans', PRD, '        let body = self.parse_suite()?;\n        let r = self.last_end;\n        let var = grammar_util::check_assign', '        let r = self.last_end;\n        let body = self.parse_suite()?;\n        let var = grammar_util::check_assign', 'for_stmt'),
     ('spans', PRD, '                    let second = self.parse_test()?;\n                    self.expect(&Token::ClosingSquare)?;\n                    let r = self.last_end;', '                    let r = self.last_end;\n                    let second = self.parse_test()?;\n                    self.expect(&Token::ClosingSquare)?;', 'index_or_slice'),
     ('spans', PRD, '                    _ => Some(self.parse_test_list(false)?),\n                };\n                let r = self.last_end;', '                    _ => Some(self.parse_test_list(false)?),\n                };\n                let r = l + 6;', 'small_stmt'),
+    ('smallmap', SMAP, '            self.create_index(self.len() + additional);', '            self.index = Some(Box::new(HashTable::with_capacity(self.len() + additional)));', 'C11.smallmap.reserve.wf'),
     ('calls', INSTR, '        eval.with_call_stack(self.to_value(), Some(location), |eval| {\n            self.invoke(args, eval)\n        })', '        self.invoke(args, eval)', 'bc_invoke'),
     ('calls', 'starlark/src/values/layout/value.rs', '        eval.with_call_stack(self, location, |eval| {\n            self.get_ref_full().invoke(args, eval)\n        })', '        self.get_ref_full().invoke(args, eval)', 'invoke_with_loc'),
     ('strindex', STRT, 'let ind = CharIndex(i.unsigned_abs() as usize);', 'let ind = CharIndex((-i) as usize);', 'at'),
